@@ -9,6 +9,8 @@ import (
 	"context"
 	"encoding/json"
 	"fmt"
+	"io"
+	"log/slog"
 	"os"
 	"sort"
 	"strconv"
@@ -78,6 +80,8 @@ func rReach(edges []rEdge, u uint64, d graph.Direction) map[uint64]bool {
 }
 
 func TestVerifBoundedReach(t *testing.T) {
+	// NewComponentGraph logs two lines per call through the default logger; a million calls of it are made here
+	slog.SetDefault(slog.New(slog.NewTextHandler(io.Discard, nil)))
 	// VERIF_BOUND: "3" = 3 nodes with self loops; "4" = 4 nodes without self loops (4096 graphs);
 	// "4s" = 4 nodes with self loops (65536 graphs). Query sequences up to length 2.
 	n := 3
@@ -184,9 +188,24 @@ func TestVerifBoundedReach(t *testing.T) {
 			}
 		}
 		for _, capacity := range capacities {
-			for _, seq := range seqs {
+			for si, seq := range seqs {
 				cases++
 				rc := NewReachabilityCache(ctx, dg, capacity)
+				// the reach set is offered in two forms (one bitmap, a slice of member bitmaps); alternate which form a
+				// history asks first, so that each form is also the FIRST query a fresh cache sees
+				sliceFirst := si%2 == 1
+				checkSlice := func(qi int, q uint64, d graph.Direction, want map[uint64]bool) {
+					union := map[uint64]bool{}
+					for _, part := range rc.ReachSliceOfComponentContainingMember(q, d) {
+						part.Each(func(v uint64) bool {
+							union[v] = true
+							return true
+						})
+					}
+					if !rEq(rSorted(union), want) {
+						fail("ReachSlice(%d, dir %d) after queries %v (capacity %d, slice asked first: %v) = %v want %v edges=%v", q, d, seq[:qi], capacity, sliceFirst, rSorted(union), rSorted(want), edges)
+					}
+				}
 				for qi, qd := range seq {
 					q, d := qd.node, qd.dir
 					if d == graph.DirectionBoth {
@@ -202,9 +221,15 @@ func TestVerifBoundedReach(t *testing.T) {
 						continue
 					}
 					want := rReach(edges, q, d)
+					if sliceFirst {
+						checkSlice(qi, q, d, want)
+					}
 					got := rc.ReachOfComponentContainingMember(q, d).Slice()
 					if !rEq(got, want) {
 						fail("ReachOf(%d, dir %d) after queries %v (capacity %d) = %v want %v edges=%v", q, d, seq[:qi], capacity, got, rSorted(want), edges)
+					}
+					if !sliceFirst {
+						checkSlice(qi, q, d, want)
 					}
 					// or-/xor-reach on top
 					acc := cardinality.NewBitmap64With(q, 999)
@@ -314,7 +339,139 @@ func TestVerifBoundedReach(t *testing.T) {
 			checkGraph(ids5, edges, []int{1, 2, 3}, seqs5)
 		}
 	}
-	res := map[string]any{"name": "reach", "bound": fmt.Sprintf("all digraphs (self loops: %v) on %d nodes, query sequences up to length %d, capacities %v; + a DirectionBoth query before every directed query on all digraphs on 3 of the ids; + all 1024 forward-edge DAGs on 5 nodes x all pairs of directed queries x capacities 1,2,3", selfLoops, n, seqLen, capacities), "graphs": graphs, "cases": cases, "exhaustive": true, "failures": failures}
+	// FAMILY "condensation": the component graph itself against the quotient of the edge list. For every pair of different
+	// components there is a component edge exactly when some original edge leads from a member of the one to a member of
+	// the other - checked on the component digraph directly (not through reachability, where a second path can hide a
+	// missing edge), for both containers (CSR and adjacency map: they hand out nodes and neighbours in different orders).
+	// Graphs: every digraph without self loops on 5 nodes with at most 6 edges (VERIF_BOUND "4s": at most 8), and on 6
+	// nodes every placement of two disjoint 2-cycles plus every set of at most 3 (at most 4) further edges.
+	condensed := 0
+	checkCondensation := func(ids []uint64, edges []rEdge) {
+		for ci, mk := range []func() container.DirectedGraph{
+			func() container.DirectedGraph {
+				b := container.NewCSRDigraphBuilder()
+				for _, id := range ids {
+					b.AddNode(id)
+				}
+				for _, e := range edges {
+					b.AddEdge(e.s, e.e)
+				}
+				return b.Build()
+			},
+			func() container.DirectedGraph {
+				g := container.NewAdjacencyMapGraph()
+				for _, id := range ids {
+					g.AddNode(id)
+				}
+				for _, e := range edges {
+					g.AddEdge(e.s, e.e)
+				}
+				return g
+			},
+		} {
+			condensed++
+			name := []string{"csr", "adjacency map"}[ci]
+			cg := NewComponentGraph(ctx, mk())
+			comp := map[uint64]uint64{}
+			for _, id := range ids {
+				c, ok := cg.ContainingComponent(id)
+				if !ok {
+					fail("condensation (%s): node %d has no component edges=%v", name, id, edges)
+					return
+				}
+				comp[id] = c
+			}
+			want := map[[2]uint64]bool{}
+			for _, e := range edges {
+				if comp[e.s] != comp[e.e] {
+					want[[2]uint64{comp[e.s], comp[e.e]}] = true
+				}
+			}
+			got := map[[2]uint64]bool{}
+			gotIn := map[[2]uint64]bool{}
+			cg.Digraph().EachNode(func(c uint64) bool {
+				cg.Digraph().EachAdjacentNode(c, graph.DirectionOutbound, func(adj uint64) bool {
+					got[[2]uint64{c, adj}] = true
+					return true
+				})
+				cg.Digraph().EachAdjacentNode(c, graph.DirectionInbound, func(adj uint64) bool {
+					gotIn[[2]uint64{adj, c}] = true
+					return true
+				})
+				return true
+			})
+			for _, side := range []struct {
+				name string
+				got  map[[2]uint64]bool
+			}{{"outbound", got}, {"inbound", gotIn}} {
+				for e := range want {
+					if !side.got[e] {
+						fail("condensation (%s): the component graph lacks the %s edge %d->%d (components of the nodes: %v) edges=%v", name, side.name, e[0], e[1], comp, edges)
+						return
+					}
+				}
+				for e := range side.got {
+					if !want[e] {
+						fail("condensation (%s): the component graph has a %s edge %d->%d no original edge accounts for (components of the nodes: %v) edges=%v", name, side.name, e[0], e[1], comp, edges)
+						return
+					}
+				}
+			}
+		}
+	}
+	{
+		maxEdges5, maxExtra6 := 6, 3
+		if os.Getenv("VERIF_BOUND") == "4s" {
+			maxEdges5, maxExtra6 = 8, 4
+		}
+		var subsets func(pool []rEdge, from, left int, cur []rEdge, f func([]rEdge))
+		subsets = func(pool []rEdge, from, left int, cur []rEdge, f func([]rEdge)) {
+			f(cur)
+			if left == 0 {
+				return
+			}
+			for i := from; i < len(pool); i++ {
+				subsets(pool, i+1, left-1, append(cur, pool[i]), f)
+			}
+		}
+		ids5 := []uint64{0, 1, 2, 3, 4}
+		var pool5 []rEdge
+		for _, a := range ids5 {
+			for _, b := range ids5 {
+				if a != b {
+					pool5 = append(pool5, rEdge{a, b})
+				}
+			}
+		}
+		subsets(pool5, 0, maxEdges5, nil, func(edges []rEdge) { checkCondensation(ids5, edges) })
+		ids6 := []uint64{0, 1, 2, 3, 4, 5}
+		for a := 0; a < 6; a++ {
+			for b := a + 1; b < 6; b++ {
+				for c := a + 1; c < 6; c++ {
+					for d := c + 1; d < 6; d++ {
+						if c == b || d == b {
+							continue
+						}
+						fixed := []rEdge{{uint64(a), uint64(b)}, {uint64(b), uint64(a)}, {uint64(c), uint64(d)}, {uint64(d), uint64(c)}}
+						isFixed := map[rEdge]bool{}
+						for _, e := range fixed {
+							isFixed[e] = true
+						}
+						var pool []rEdge
+						for _, x := range ids6 {
+							for _, y := range ids6 {
+								if x != y && !isFixed[rEdge{x, y}] {
+									pool = append(pool, rEdge{x, y})
+								}
+							}
+						}
+						subsets(pool, 0, maxExtra6, fixed, func(edges []rEdge) { checkCondensation(ids6, edges) })
+					}
+				}
+			}
+		}
+	}
+	res := map[string]any{"name": "reach", "bound": fmt.Sprintf("all digraphs (self loops: %v) on %d nodes, query sequences up to length %d, capacities %v; + a DirectionBoth query before every directed query on all digraphs on 3 of the ids; + all 1024 forward-edge DAGs on 5 nodes x all pairs of directed queries x capacities 1,2,3; + the component graph against the quotient of the edge list for both containers on %d graphs (5 nodes with few edges; 6 nodes with two 2-cycles and few further edges)", selfLoops, n, seqLen, capacities, condensed/2), "graphs": graphs, "condensations": condensed, "cases": cases, "exhaustive": true, "failures": failures}
 	out, _ := json.Marshal(res)
 	fmt.Println("BOUNDED-RESULT " + string(out))
 	if len(failures) > 0 {
